@@ -1162,7 +1162,8 @@ def optimize_random_greedy_track_flops(
             cp0.flops_limit = best_flops
 
     # for consistency with cotengrust / easier comparison
-    best_flops = math.log10(best_flops)
+    # (a single term needs no contraction at all -> zero flops)
+    best_flops = math.log10(max(best_flops, 1))
 
     if not use_ssa:
         best_path = ssa_to_linear(best_path, len(inputs))
